@@ -58,6 +58,7 @@ impl Rng {
     pub fn bytes(&mut self, n: usize) -> Vec<u8> { (0..n).map(|_| self.next() as u8).collect() }
 }
 
+pub fn thorough() -> bool { std::env::var("VERIF_TIER").map(|t| t == "thorough").unwrap_or(false) }
 pub fn hex(b: &[u8]) -> String { b.iter().map(|x| format!("{:02x}", x)).collect() }
 /// hashes are displayed byte-reversed (as rust-bitcoin and Bitcoin Core do)
 pub fn hex_rev(b: &[u8]) -> String { b.iter().rev().map(|x| format!("{:02x}", x)).collect() }
